@@ -166,8 +166,12 @@ def denote_feature(feature, seq, stranded=True):
             merged[-1][1] += p[1]
         elif merged and merged[-1][2] == p[2] == -1 and merged[-1][1] + p[1] <= n and \
                 (p[0] + p[1]) % n == merged[-1][0]:
-            # minus-strand joins list the downstream part first
+            # minus-strand joins usually list the downstream part first
             merged[-1][0] = p[0]
+            merged[-1][1] += p[1]
+        elif merged and merged[-1][2] == p[2] == -1 and merged[-1][1] + p[1] <= n and \
+                (merged[-1][0] + merged[-1][1]) % n == p[0]:
+            # ... but two abutting pieces listed upstream first cover the same stretch
             merged[-1][1] += p[1]
         else:
             merged.append(list(p))
